@@ -58,6 +58,7 @@ M = {
  "c20_verbose_divides_by_zero": (["C20"], [(SP, "    if verbose:\n        print(str(round(valid_rate * 100, 2)) + \"% (\" + str(sum(vertices)) + \") valid vertices are collected.\")", "    if verbose:\n        print(str(round(100 / (len(vertices) - int(sum(vertices))), 2)) + \"% (\" + str(sum(vertices)) + \") valid vertices are collected.\")", 1)]),
  "env_encode_module_level_scratch": (["C20", "C01"], [(SP, "def encode(binary_message, accessor, start_index,", "_PIECES = []\n\n\ndef encode(binary_message, accessor, start_index,", 1), (SP, "            nucleotide, vertex_index = nucleotides[value], accessor[vertex_index][value]\n\n            dna_sequence += nucleotide\n\n            if verbose:\n                if quotient", "            nucleotide, vertex_index = nucleotides[value], accessor[vertex_index][value]\n\n            _PIECES.append(nucleotide)\n            dna_sequence = \"\".join(_PIECES[-(len(dna_sequence) + 1):])\n\n            if verbose:\n                if quotient", 1)]),
  "env_capacity_scratch_write_into_argument": (["C17", "C20"], [(GR, "    ignore_positions = where(sum(accessor, axis=1) == -len(accessor[0]))[0]\n", "    ignore_positions = where(sum(accessor, axis=1) == -len(accessor[0]))[0]\n    accessor[ignore_positions] = -1  # idempotent scratch write\n", 1)]),
+ "env_numpy_error_handling_left_changed": (["C17"], [(GR, "    ignore_positions = where(sum(accessor, axis=1) == -len(accessor[0]))[0]\n", "    ignore_positions = where(sum(accessor, axis=1) == -len(accessor[0]))[0]\n    __import__(\"numpy\").seterr(divide=\"ignore\")  # silence log2(0) for good\n", 1)]),
  "c08_insertion_validated_from_next_symbol": (["C08"], [(GR, "            for nucleotide in dna_sequence[occur_location:]:", "            for nucleotide in dna_sequence[occur_location + 1:]:", 1)]),
  "c20_module_level_cache": (["C20"], [(GR, "def obtain_vertices(accessor):", "_VERTEX_CACHE = {}\n\n\ndef obtain_vertices(accessor):", 1), (GR, "    return where(sum(((accessor + 1).astype(bool)), axis=1).astype(bool) == 1)[0].astype(int)", "    key = (id(accessor), accessor.shape)\n    if key not in _VERTEX_CACHE:\n        _VERTEX_CACHE[key] = where(sum(((accessor + 1).astype(bool)), axis=1).astype(bool) == 1)[0].astype(int)\n    return _VERTEX_CACHE[key]", 1)]),
 }
